@@ -238,6 +238,17 @@ def relU (name : String) (on : List String) (dest : String) (doc : Bytes) (a b :
 
 def optRes (s : String) : Option (Option Res) := if s == "-" then some none else (Res.parse s).map some
 
+/-- big document against small document, one Config: same error, or the small result scaled -/
+def scaleRes (ns nb : String) (small big : Res) (what : String) : Verdict :=
+  match small, big with
+  | .ok vs, .ok vb =>
+    match parseDoc vs, parseDoc vb with
+    | some ts, some tb => req (scaleRel ns.toUTF8.toList nb.toUTF8.toList ts tb) (what ++ ": the result for the large document is not the small document's result with the repetition count scaled")
+    | _, _ => .bad (what ++ ": dump unreadable")
+  | .err k, .err k' => req (k == k') (what ++ ": error kind depends on the size of the document")
+  | .panic t, .panic t' => req (t == t') (what ++ ": panic depends on the size of the document")
+  | _, _ => .bad (what ++ ": success depends on the size of the document")
+
 def parseNames (s : String) : List String := if s == "-" then [] else s.splitOn ","
 
 /-- `field:word:mask;...` -/
@@ -281,6 +292,27 @@ def handle : List String → Option String
     let xdoc ← if xdoc == "!" then some none else (unhexArg xdoc).map some
     let fields ← if fields == "-" then some none else (parseFields fields).map some
     pure s!"model={(relU name (parseNames on) dest doc a b x xdoc fields).str}"
+  | ["optbig", name, on, dest, doc, a, b, x, xdoc, fields, ns, nb, ca, cb, bA, bB, sA, sB] => do
+    let doc ← unhexArg doc
+    let a ← Res.parse a
+    let b ← Res.parse b
+    let x ← optRes x
+    let xdoc ← if xdoc == "!" then some none else (unhexArg xdoc).map some
+    let fields ← if fields == "-" then some none else (parseFields fields).map some
+    let ca ← Res.parse ca
+    let cb ← Res.parse cb
+    let bA ← Res.parse bA
+    let bB ← Res.parse bB
+    let sA ← Res.parse sA
+    let sB ← Res.parse sB
+    -- 1. the small document stands in the switch's relation (same decision as for `optpair ... u`);
+    -- 2. under each of the two Configs the large result is the small one scaled;
+    -- 3. the stream decoder fed in chunks returns what UnmarshalFromString returns
+    let small := relU name (parseNames on) dest doc a b x xdoc fields
+    let v := (scaleRes ns nb ca bA "without the switch").and <| (scaleRes ns nb cb bB "with the switch").and <|
+      (req (sA == bA) "stream decoder result differs from Unmarshal on the large document (without the switch)").and
+        (req (sB == bB) "stream decoder result differs from Unmarshal on the large document (with the switch)")
+    pure s!"model={(v.and small).str}"
   | ["froze", cfg, fields, wires] =>
     let c := cfg.toNat!
     let fs := parseNames fields
